@@ -76,13 +76,14 @@ def start_coverage(pid):
     """line + branch coverage of the anchored files while the in-process correspondence runs (how much of the
     code the generated cases reach; child processes - runtime workers, daemons - are not measured)"""
     try:
+        os.environ.setdefault("COVERAGE_CORE", "sysmon")      # sys.monitoring: far cheaper than tracing
         import coverage
         files = [f for f in anchored_files(pid) if os.path.exists(f)]
         if not files:
             return None
         import warnings
         warnings.filterwarnings("ignore", category=coverage.exceptions.CoverageWarning)
-        c = coverage.Coverage(branch=True, include=files, data_file=None, config_file=False)
+        c = coverage.Coverage(branch=False, include=files, data_file=None, config_file=False)
         c.start()
         return c
     except Exception:
